@@ -187,6 +187,13 @@ def run(ctx: Ctx, rep: Report, tier: str) -> None:  # noqa: C901
         _traversal(ctx, rep, f)
 
     rendered_numbers(ctx, rep)
+    # R10.7 the range checks of the wrapper are made on every call: no counter or flag outside the objects (module level,
+    # closure of the decorator) decides whether they run (C17 R17.2)
+    from .c17 import r17_2
+
+    sub17 = Report("C10")
+    r17_2(ctx, sub17)
+    rep.absorb(sub17, "R10.7")
     # ---------------------------------------------------------------- R10.5 the number written is the number stored
     rep.rule("R10.5")
     setters = []
@@ -256,6 +263,29 @@ def rendered_numbers(ctx: Ctx, rep: Report, rid: str = "R10.6") -> None:
         else:
             rep.ok(f.qualname, f"'' only for sequence outside 1..{smax}", where=where(f))
     rep.require(n >= 1, "no _sequence_s renderer found")
+    # ... and every way an entry is rendered starts with that prefix (a standard ACE as well as an extended one, a remark)
+    from .common import rendered_sequences
+
+    m = 0
+    for q in ("Ace.line.getter", "Remark.line.getter"):
+        g = ctx.prog.find_func(q)
+        if g is None:
+            continue
+        for els, pi in rendered_sequences(ctx, g):
+            m += 1
+            rep.instance()
+            if els is None:
+                # a rendering this reader does not follow (not a join of a list): look for the prefix anywhere in the returned text
+                r = deep_resolve(pi.ret, pi.env) if pi.ret is not None else None
+                ok = r is not None and ("_sequence_s()" in src(r) or "_sequence" in src(r))
+            else:
+                ok = bool(els) and ("_sequence_s()" in src(els[0]) or "self._sequence" in src(els[0]) or "self.sequence" in src(els[0]))
+            held = "; ".join(f"{snippet(t, 30)}{'' if tr else ' (false)'}" for t, tr in pi.atoms)[:120]
+            if ok:
+                rep.ok(f"{q} [{held}]", "the rendered line starts with the sequence prefix", nontrivial=False, where=where(g))
+            else:
+                rep.violation(q, f"path [{held}]", "on this path the entry is rendered without its sequence number: after resequencing `.sequence` holds a number the text does not show, and a re-parse of the text loses it", where(g), inp="Acl('ip access-list standard A\\n permit host 10.0.0.1').resequence()")
+    rep.floor(2, "rendering paths of Ace.line / Remark.line") if m else None
 
 
 def _before(cfg, g: ast.If, cn: Node) -> bool:
